@@ -649,6 +649,9 @@ func main() {
 			for _, rp := range corpus() {
 				jobs = append(jobs, job{rp, "corpus"})
 			}
+			for _, rp := range stopStartCorpus() {
+				jobs = append(jobs, job{rp, "stopstart"})
+			}
 			root := seededRng(c.Seed)
 			n := c.N(300)
 			for i := 0; i < n; i++ {
@@ -741,6 +744,9 @@ func mkCases(r *runner, j job) ([]Case, error) {
 	}
 	if rp.Kind == "rebuild" {
 		return r.runRebuild(rp, j.stream)
+	}
+	if rp.Kind == "stopstart" {
+		return runStopStart(rp, j.stream) // on servers of its own
 	}
 	o, err := r.runCase(&rp)
 	if err != nil {
